@@ -19,7 +19,7 @@ def run(ctx):
     ctx.tlc("ProofCodec", cfg([32, 31, 1, 33] if ctx.quick else [32, 31, 30, 1, 0, 33]), label="ProofCodec mc", timeout=900)
     ctx.expect_mutant_violates("ProofCodec", cfg([32, 31], align="left"), "ProofCodec mutant Align=left")
     # trailing zero bytes (values divisible by 256^t), at most one such coordinate per proof; trimming on both sides must be refuted
-    ctx.tlc("ProofCodec", cfg([32, 31] if ctx.quick else [32, 31, 2, 33], tzs=(0, 1, 2) if ctx.quick else (0, 1, 2, 3)), label="ProofCodec mc with trailing-zero classes", timeout=1800)
+    ctx.tlc("ProofCodec", cfg([32, 31] if ctx.quick else [32, 31, 33], tzs=(0, 1, 2) if ctx.quick else (0, 1, 2, 3)), label="ProofCodec mc with trailing-zero classes", timeout=1800)
     ctx.expect_mutant_violates("ProofCodec", cfg([32, 31], tzs=(0, 1), trim="both"), "ProofCodec mutant Trim=both")
     # behaviours for replay: all short/full vectors
     r = ctx.tlc("ProofCodec", cfg([32, 31, 33], export=True), label="ProofCodec gen (short / full / top-of-field classes)", timeout=900)
